@@ -52,7 +52,6 @@ REQUIRED = REQUIRED + [t for t in _C08.C07_DERIVED_REQUIRED if t not in REQUIRED
 
 def prepare(seed, tier):
     from verifkit.props import C08
-    C08.ID_FOR_ATTRS[0] = False
     C08.prepare(seed, tier)          # regenerates the crate of derived types (harness/dgen) from the seed
 
 
@@ -110,7 +109,24 @@ def streams(rng, tier):
     s3 = Stream("exact-buffer", "hcore", xb, judge=judge_xb,
                 rule="Encoder call chains (many ending in an empty string / byte string) into slice and cursor sinks of exactly len bytes (must succeed) and len-1 bytes (must fail)")
     s3.shrinkable = False
-    return [s1, s2, s3] + derived + [C08.attr_stream(tier, "len")]
+    # paths that are not UTF-8: the encoder refuses them (the property's exclusion) and `len` is whatever; but IF an encoding
+    # is produced, `len` must be its length
+    pops = []
+    raws = [b"\x80", b"/tmp/\x80log\xe2\x82", b"\xff\xfe", b"a\xc3", b"\xed\xa0\x80", b"/ok/\xf0\x9f\x98", b"\xc0\xaf", b"plain", b"/etc/hosts", b""] + \
+           [gen.rand_bytes(rng, rng.randint(1, 40)) for _ in range(60 if tier == "quick" else 2000)]
+    for raw in raws:
+        for kind in ("PathBuf", "BoxPath", "RefPath", "VecPathBuf", "OptPathBuf"):
+            pops.append(f"tencpath {kind} {gen.hexb(raw)}")
+    def judge_path(op, impl, model, spec):
+        if impl.startswith("err "): return "ok"
+        sp = C01.split_enc(impl)
+        if sp is None: return "violation"
+        return "ok" if sp[1] == len(sp[0]) else "violation"
+    s4 = Stream("len-nonutf8-path", "hcore", pops, model_ops=["nop"] * len(pops), judge=judge_path,
+                rule="tencpath <path type> <raw bytes>: PathBuf / Box<Path> / &Path / Vec<PathBuf> / Option<PathBuf> built from arbitrary bytes: either the "
+                     "encoder refuses (non-UTF-8, the property's exclusion) or the reported len equals the bytes written")
+    s4.shrinkable = False
+    return [s1, s2, s3, s4] + derived + [C08.attr_stream(tier, "len")]
 
 
 def _judge_derived(op, impl, model, spec):
